@@ -555,3 +555,294 @@ func c03Overflow(p *Prog, r *Report, enc *ssa.Function) {
 		r.OK("C03.R8", "overflow predicates", p.Pos(enc.Pos()), "the re-encoder rewrites no displacement in place under an overflow predicate")
 	}
 }
+
+// c03TargetOffsets: C03.R9 — wherever the relocation code of package patch compares the displacement it decoded from an
+// instruction together with other quantities (is the branch target inside the copied prefix? beyond the block?), what is
+// compared is the target offset displacement + position + instruction length, each once and with the same sign;
+// comparisons of the displacement alone (its direction) are left alone.
+func c03TargetOffsets(p *Prog, r *Report) {
+	n := 0
+	for _, f := range p.FuncsIn("internal/patch") {
+		if f.Blocks == nil {
+			continue
+		}
+		k := NewKeyer(f)
+		rel := map[string]bool{}
+		eachInstr(f, func(i ssa.Instruction) {
+			if cl, ok := i.(*ssa.Call); ok {
+				if cal := staticCallee(cl.Common()); cal != nil && relPkg(cal) == "internal/bytecode" && cal.Signature.Results().Len() == 1 && isIntegerType(cal.Signature.Results().At(0).Type()) {
+					for _, a := range cl.Call.Args {
+						if strings.Contains(a.Type().String(), "asm.Inst") {
+							rel[k.Key(cl)] = true
+						}
+					}
+				}
+			}
+		})
+		if len(rel) == 0 {
+			continue
+		}
+		nInF := 0
+		eachInstr(f, func(i ssa.Instruction) {
+			bo, ok := i.(*ssa.BinOp)
+			if !ok || !isBool(bo.Type()) || !isIntegerType(bo.X.Type()) {
+				return
+			}
+			form := map[string]int64{}
+			var konst int64
+			linForm(k, bo.X, 1, form, &konst, 0)
+			linForm(k, bo.Y, -1, form, &konst, 0)
+			var relC int64
+			for key := range rel {
+				relC += form[key]
+			}
+			if relC == 0 {
+				return
+			}
+			others := 0
+			var lenC, posC int64
+			posLeaves := 0
+			for key, c := range form {
+				if c == 0 || rel[key] {
+					continue
+				}
+				others++
+				if strings.Contains(key, "Len") {
+					lenC += c
+				} else if c == relC {
+					posC += c
+					posLeaves++
+				}
+			}
+			if others == 0 {
+				return // the displacement alone (its sign)
+			}
+			nInF++
+			n++
+			ok2 := (relC == 1 || relC == -1) && lenC == relC && posC == relC && posLeaves == 1 && others <= 3
+			r.Check(ok2, "C03.R9", "branch target offset compared in "+shortName(f)+" #"+itoa2(nInF), p.Pos(posOf(bo)), "displacement + position + length, each once",
+				"a comparison that decides whether a prologue branch stays inside the copied bytes (or enters the overwritten prefix) is not made on displacement + position + instruction length: branches are relocated that must not be (or the reverse), or a branch into the overwritten jump is not refused")
+		})
+	}
+	if n == 0 {
+		r.Und("C03.R9", "branch target offsets", "", "no comparison of a decoded displacement found in package patch")
+	}
+}
+
+// c03MeasuredReads: C03.R3 clause — where package patch reads N raw bytes at an address and N comes from a function-extent
+// scan, the scan measured that very address (not the placeholder's extent for the origin's bytes or the reverse): the
+// branch-into-the-prefix check and the relocation see exactly the origin function.
+func c03MeasuredReads(p *Prog, r *Report) {
+	n := 0
+	for _, f := range p.FuncsIn("internal/patch") {
+		if f.Blocks == nil {
+			continue
+		}
+		nInF := 0
+		for _, cs := range callsTo(f, qual(memPkg, "RawRead")) {
+			args := callCommon(cs).Args
+			for _, a := range origins(args[1]) {
+				ex, ok := a.V.(*ssa.Extract)
+				if !ok || ex.Index != 0 {
+					continue
+				}
+				scan, ok := ex.Tuple.(*ssa.Call)
+				if !ok || calleeName(scan.Common()) != qual("internal/bytecode", "GetFuncSize") {
+					continue
+				}
+				n++
+				nInF++
+				same := resolveLocal(scan.Call.Args[1]) == resolveLocal(args[0])
+				r.Check(same, "C03.R3", "bytes read in "+shortName(f)+" #"+itoa2(nInF)+" are measured at the address read", p.Pos(posOf(cs)), "RawRead(a, size scanned at a)",
+					"the number of bytes read at one address is the scanned extent of another function: the check for branches into the overwritten prefix (and the relocation) see only part of the origin function, or bytes beyond it")
+			}
+		}
+	}
+	if n == 0 {
+		r.Und("C03.R3", "measured reads", "", "no raw read sized by a function-extent scan found in package patch")
+	}
+}
+
+// c03PrefixFromZero: C03.R3 clause — the check that refuses a function because one of its instructions branches into the
+// bytes the entry jump overwrites refuses a branch to the FIRST of those bytes too. (The compiler's stack-growth path
+// ends in `JMP <function start>`: after the prologue has been copied into the placeholder that jump lands on the entry
+// jump, i.e. calling the placeholder with little stack headroom re-enters the mock.)
+func c03PrefixFromZero(p *Prog, r *Report) {
+	n := 0
+	for _, f := range p.FuncsIn("internal/patch") {
+		if f.Blocks == nil || errIndex(f.Signature) < 0 {
+			continue
+		}
+		k := NewKeyer(f)
+		rel := map[string]bool{}
+		eachInstr(f, func(i ssa.Instruction) {
+			if cl, ok := i.(*ssa.Call); ok {
+				if cal := staticCallee(cl.Common()); cal != nil && relPkg(cal) == "internal/bytecode" && cal.Signature.Results().Len() == 1 && isIntegerType(cal.Signature.Results().At(0).Type()) {
+					for _, a := range cl.Call.Args {
+						if strings.Contains(a.Type().String(), "asm.Inst") {
+							rel[k.Key(cl)] = true
+						}
+					}
+				}
+			}
+		})
+		if len(rel) == 0 {
+			continue
+		}
+		for _, ret := range returnsOf(f) {
+			if isNilConst(retResult(ret, errIndex(f.Signature))) {
+				continue
+			}
+			// the refusal: an error return under a lower and an upper bound on the target offset
+			var lowMin *int64
+			hasUpper := false
+			for _, g := range guardsAt(ret.Block()) {
+				bo, ok := g.Cond.(*ssa.BinOp)
+				if !ok || !g.Pol || !isIntegerType(bo.X.Type()) {
+					continue
+				}
+				form := map[string]int64{}
+				var konst int64
+				linForm(k, bo.X, 1, form, &konst, 0)
+				linForm(k, bo.Y, -1, form, &konst, 0)
+				var relC int64
+				others := 0
+				for key, c := range form {
+					if c == 0 {
+						continue
+					}
+					if rel[key] {
+						relC += c
+					} else if !strings.Contains(key, "Len") && c != relC && c != 1 && c != -1 {
+						others++
+					}
+				}
+				if relC != 1 && relC != -1 {
+					continue
+				}
+				// leaves beyond displacement, position and length (a bound variable) make it the upper bound
+				extra := 0
+				nPosLen := 0
+				for key, c := range form {
+					if c == 0 || rel[key] {
+						continue
+					}
+					if c == relC {
+						nPosLen++
+					} else {
+						extra++
+					}
+				}
+				if nPosLen != 2 {
+					continue
+				}
+				if extra > 0 {
+					hasUpper = true
+					continue
+				}
+				// T*relC + konst  op  0
+				op := bo.Op
+				if relC == -1 {
+					switch op {
+					case token.GTR:
+						op = token.LSS
+					case token.GEQ:
+						op = token.LEQ
+					case token.LSS:
+						op = token.GTR
+					case token.LEQ:
+						op = token.GEQ
+					}
+					konst = -konst
+				}
+				// now: T + konst op 0
+				switch op {
+				case token.GTR:
+					m := -konst + 1
+					lowMin = &m
+				case token.GEQ:
+					m := -konst
+					lowMin = &m
+				}
+			}
+			if lowMin == nil || !hasUpper {
+				continue
+			}
+			n++
+			r.Check(*lowMin <= 0, "C03.R3", "branch to the first overwritten byte is refused by "+shortName(f), p.Pos(posOf(ret)), "refused target offsets start at 0",
+				fmt.Sprintf("the check refuses branches into the overwritten entry bytes only from offset %d on: a branch to the function's first byte (the `JMP start` that ends the compiler's stack-growth path of every non-leaf function) is accepted, so after the prologue was moved to the placeholder it lands on the entry jump — calling the origin placeholder with little stack headroom re-enters the mock", *lowMin))
+		}
+	}
+	if n == 0 {
+		r.Und("C03.R3", "refusal of branches into the overwritten prefix", "", "no error return guarded by bounds on a decoded branch target found in package patch")
+	}
+}
+
+// c03TailKept: C03.R7 clause — where package patch returns a re-encoded instruction, the bytes that followed the
+// displacement in the original (an immediate operand) follow it in the result: the result is
+// reencode(block[p:o], block[o:o+w], …) ++ block[o+w : p+len].
+func c03TailKept(p *Prog, r *Report, enc *ssa.Function) {
+	n := 0
+	for _, f := range p.FuncsIn("internal/patch") {
+		if f.Blocks == nil {
+			continue
+		}
+		k := NewKeyer(f)
+		eachInstr(f, func(i ssa.Instruction) {
+			cl, ok := i.(*ssa.Call)
+			if !ok || staticCallee(cl.Common()) != enc {
+				return
+			}
+			opsSl, ok1 := resolveLocal(cl.Call.Args[0]).(*ssa.Slice)
+			dispSl, ok2 := resolveLocal(cl.Call.Args[1]).(*ssa.Slice)
+			if !ok1 || !ok2 || opsSl.Low == nil || dispSl.High == nil {
+				return
+			}
+			for _, ret := range returnsOf(f) {
+				parts, ok := concatParts(ret.Results[0], 0)
+				if !ok || len(parts) == 0 || resolveLocal(parts[0]) != ssa.Value(cl) {
+					continue
+				}
+				n++
+				okTail := false
+				if len(parts) == 2 {
+					if tail, isSl := parts[1].(*ssa.Slice); isSl && tail.Low != nil && tail.High != nil && resolveLocal(tail.X) == resolveLocal(dispSl.X) {
+						// tail.Low == dispSl.High
+						d1 := map[string]int64{}
+						var c1 int64
+						linForm(k, tail.Low, 1, d1, &c1, 0)
+						linForm(k, dispSl.High, -1, d1, &c1, 0)
+						z1 := c1 == 0
+						for _, v := range d1 {
+							if v != 0 {
+								z1 = false
+							}
+						}
+						// tail.High == opsSl.Low + <instruction length>
+						d2 := map[string]int64{}
+						var c2 int64
+						linForm(k, tail.High, 1, d2, &c2, 0)
+						linForm(k, opsSl.Low, -1, d2, &c2, 0)
+						z2, nLen := c2 == 0, 0
+						for key, v := range d2 {
+							if v == 0 {
+								continue
+							}
+							if v == 1 && strings.Contains(key, "Len") {
+								nLen++
+							} else {
+								z2 = false
+							}
+						}
+						okTail = z1 && z2 && nLen == 1
+					}
+				}
+				r.Check(okTail, "C03.R7", "re-encoded instruction keeps what followed the displacement in "+shortName(f)+" at "+blockOrdinalRet(ret), p.Pos(posOf(ret)), "reencode(…) ++ block[end of displacement : end of instruction]",
+					"the relocated instruction is returned as opcode ++ displacement only: an immediate operand that follows a RIP-relative displacement (CMPQ x(SB), $7) is dropped, the copy in the placeholder is one byte short and everything after it is decoded out of step")
+			}
+		})
+	}
+	if n == 0 {
+		r.Und("C03.R7", "re-encoded instruction tail", "", "no function of package patch returns the re-encoder's result")
+	}
+}
